@@ -3,7 +3,7 @@ IDL programs -> tars2go (built from the working tree) -> overlay entries, regist
 
 Nothing is written under /repo or /verif: generated sources live in the per-run scratch
 directory and are mapped into the harness module through the -overlay file."""
-import json, os, subprocess, time, shutil, hashlib
+import json, os, re, subprocess, time, shutil, hashlib
 
 VERIF = os.path.dirname(os.path.abspath(__file__))
 HARNESS = os.path.join(VERIF, "harness")
@@ -136,19 +136,36 @@ def gen_programs(repo, tmp, overlay, env, log, seed, count, want_glue=False, pkg
             json.dump(o, open(overlay, "w"))
             continue
         res["ok"].append(i)
-    ids = ",".join(str(i) for i in res["ok"])
-    rc, o = _run([tool, "-mode", "registry", "-in", tmp, "-ids", ids, "-pkg", pkg, "-out", os.path.join(tmp, "gen")], tmp, env)
-    if rc != 0:
-        log("idlgen registry failed:\n" + o[-2000:])
-        return None
-    _add_overlay(overlay, {os.path.join(HARNESS, "gen", pkg, "registry_gen.go"): os.path.join(tmp, "gen", pkg, "registry_gen.go")})
-    if want_glue:
-        rc, o = _run([tool, "-mode", "glue", "-in", tmp, "-ids", ids, "-pkg", pkg, "-out", os.path.join(tmp, "gen")], tmp, env)
+    for attempt in range(4):
+        ids = ",".join(str(i) for i in res["ok"])
+        rc, o = _run([tool, "-mode", "registry", "-in", tmp, "-ids", ids, "-pkg", pkg, "-out", os.path.join(tmp, "gen")], tmp, env)
         if rc != 0:
-            log("idlgen glue failed:\n" + o[-2000:])
+            log("idlgen registry failed:\n" + o[-2000:])
             return None
-        _add_overlay(overlay, {os.path.join(HARNESS, "gen", pkg, "glue_gen.go"): os.path.join(tmp, "gen", pkg, "glue_gen.go")})
-    return res
+        _add_overlay(overlay, {os.path.join(HARNESS, "gen", pkg, "registry_gen.go"): os.path.join(tmp, "gen", pkg, "registry_gen.go")})
+        if want_glue:
+            rc, o = _run([tool, "-mode", "glue", "-in", tmp, "-ids", ids, "-pkg", pkg, "-out", os.path.join(tmp, "gen")], tmp, env)
+            if rc != 0:
+                log("idlgen glue failed:\n" + o[-2000:])
+                return None
+            _add_overlay(overlay, {os.path.join(HARNESS, "gen", pkg, "glue_gen.go"): os.path.join(tmp, "gen", pkg, "glue_gen.go")})
+        # the registry and the servant/proxy glue are written from the MODEL (IDL signature ->
+        # expected Go API); when they do not compile against tars2go's output, the generated
+        # API of the named programs disagrees with their IDL
+        rc, out = _run(["go", "build", "-gcflags=-e", "-overlay", overlay] + _modflags(tmp) + ["verif/harness/gen/" + pkg], HARNESS, env)
+        if rc == 0:
+            return res
+        bad = sorted({int(m) for m in re.findall(r"\bq(\d+)[a-z]\.", out)} | {int(m) for m in re.findall(r"_q(\d+)[a-z]_", out)})
+        bad = [i for i in bad if i in res["ok"]]
+        if not bad:
+            log("registry/glue package does not compile and no program can be blamed:\n" + out[-3000:])
+            return None
+        for i in bad:
+            lines = [l for l in out.splitlines() if re.search(r"\bq%d[a-z]\.|_q%d[a-z]_" % (i, i), l)]
+            res["failed"].append((i, "generated-api-mismatch", "the Go API generated for this program does not match its IDL signatures (model-derived servant/proxy glue does not compile against it):\n" + "\n".join(lines[:12])))
+            res["ok"].remove(i)
+    log("registry/glue package still does not compile after removing blamed programs")
+    return None
 
 
 def save_program(prop, info, tmp, stage, output):
